@@ -49,6 +49,19 @@ def gen_inputs(ctx):
                 out.append(("Generate", inp, ("generate", net, acct in (0, 2 ** 31 - 1), max(0, en - st), st > en, "seed" in src)))
             out.append(("Wasabi", dict(src, net=net), ("wasabi", net)))
             out.append(("Bip85Data", dict(src, net=net), ("bip85data", net)))
+    # wallets IMPORTED from a master extended private key of each of the six private flavours (x/y/z/t/u/v prv): the
+    # three sections still carry THEIR purpose's flavour, whatever flavour the wallet came in
+    from .. import refprims as R0, refwallet as W0
+    tab0 = R0.Table()
+    for t in sorted(W0.VERSIONS):
+        if t[0] != "prv":
+            continue
+        rn = W0.master(tab0, bytes(rng.randrange(256) for _ in range(32)), t[1])
+        s_ = W0.ser(tab0, rn, W0.VERSIONS[t], True)
+        for acct, (st, en) in ((0, (0, 2)), (rng.choice([1, 44, 49, 84, 5]), (3, 4))) if not q else ((rng.choice([0, 1, 49]), (0, 1)),):
+            out.append(("Generate", {"import": T(s_), "mnemonic": T(""), "password": T(""), "net": t[1], "account": acct,
+                                     "start": B(st.to_bytes(5, "big")), "end": B(en.to_bytes(5, "big")), "json": False},
+                        ("generate-imported", t[1], t[2])))
     # masters whose fingerprint has a leading zero nibble / byte (formatting corner of the Wasabi export)
     from .. import refprims as R, refwallet as W
     found = {"nibble": 0, "byte": 0}
@@ -70,7 +83,7 @@ def gen_inputs(ctx):
 def describe(ev):
     i = ev["inp"]
     if ev["act"] == "Generate":
-        return "%s wallet.generate(account=%d, interval=(%d, %d))" % (i["net"], i["account"], int.from_bytes(bytes(i["start"]), "big"), int.from_bytes(bytes(i["end"]), "big"))
+        return "%s wallet%s.generate(account=%d, interval=(%d, %d))" % (i["net"], " imported from " + core.untext(i["import"])[:4] if i.get("import") else "", i["account"], int.from_bytes(bytes(i["start"]), "big"), int.from_bytes(bytes(i["end"]), "big"))
     return "%s wallet.%s()" % (i["net"], "wasabi_json" if ev["act"] == "Wasabi" else "bip85_data")
 
 
